@@ -911,6 +911,111 @@ func ruleNSMap(w *World, r *Report) {
 	if n == 0 {
 		r.bad("C14-NSMAP", "sites", "", "no call passing a prefix table found")
 	}
+	// the syntax tree a compilation uses was parsed under this compilation's
+	// table: in a function that holds a table, every syntax-tree value it
+	// returns or hands to another function comes from a call that received
+	// that table (prefixes are resolved, and unbound ones rejected, while
+	// parsing) — never from a store that outlives the call
+	g, err := w.grammar()
+	if err != nil {
+		return
+	}
+	isTree := func(t types.Type) bool { return types.Identical(t, g.NodeT) }
+	for _, fn := range holders {
+		m := ssa.Value(fn.Params[mapParam(fn)])
+		var fromTableCall func(v ssa.Value, seen map[ssa.Value]bool) (bool, ssa.Value)
+		fromTableCall = func(v ssa.Value, seen map[ssa.Value]bool) (bool, ssa.Value) {
+			v = strip(v)
+			if seen[v] {
+				return true, nil
+			}
+			seen[v] = true
+			switch x := v.(type) {
+			case *ssa.Phi:
+				for _, e := range x.Edges {
+					if ok, why := fromTableCall(e, seen); !ok {
+						return false, why
+					}
+				}
+				return true, nil
+			case *ssa.Extract:
+				return fromTableCall(x.Tuple, seen)
+			case *ssa.Call:
+				callee := x.Call.StaticCallee()
+				if callee != nil && w.inPkg(callee) {
+					if gi := mapParam(callee); gi >= 0 && gi < len(x.Call.Args) && strip(x.Call.Args[gi]) == m {
+						return true, nil
+					}
+					// a method of an object that was given the table (the parser)
+					if callee.Signature.Recv() != nil && len(x.Call.Args) > 0 {
+						if a, ok := strip(x.Call.Args[0]).(*ssa.Alloc); ok {
+							holds := false
+							for _, u := range uses(a) {
+								if fa, ok := u.(*ssa.FieldAddr); ok {
+									for _, u2 := range uses(fa) {
+										if st, ok := u2.(*ssa.Store); ok && strip(st.Val) == m {
+											holds = true
+										}
+									}
+								}
+							}
+							if holds {
+								return true, nil
+							}
+						}
+					}
+				}
+				return false, v
+			case *ssa.Const:
+				return true, nil // nil
+			case *ssa.UnOp:
+				if x.Op == token.MUL {
+					if a, ok := x.X.(*ssa.Alloc); ok {
+						for _, st := range cellStores(a) {
+							if ok, why := fromTableCall(st.Val, seen); !ok {
+								return false, why
+							}
+						}
+						return true, nil
+					}
+				}
+				return false, v
+			case *ssa.Parameter:
+				return true, nil // the caller's tree: judged at the caller
+			}
+			return false, v
+		}
+		judged := 0
+		bad := false
+		eachInstr(fn, false, func(_ *ssa.Function, in ssa.Instruction) {
+			var vals []ssa.Value
+			switch x := in.(type) {
+			case *ssa.Return:
+				vals = x.Results
+			case ssa.CallInstruction:
+				if callee := x.Common().StaticCallee(); callee != nil && w.inPkg(callee) {
+					vals = x.Common().Args
+				}
+			}
+			for _, v := range vals {
+				if !isTree(v.Type()) || bad {
+					continue
+				}
+				judged++
+				if ok, why := fromTableCall(v, map[ssa.Value]bool{}); !ok {
+					bad = true
+					what := "a value that does not come from a parse of this call"
+					if why != nil {
+						what = fmt.Sprintf("%s (%s)", why.Name(), w.pos(why.Pos()))
+					}
+					r.bad("C14-NSMAP", fn.Name()+":tree", w.instrPos(in), fmt.Sprintf("%s uses a syntax tree that was not parsed under the prefix table of this call: %s — prefixes are resolved (and unbound ones rejected) while parsing, so a tree kept from another compilation carries that compilation's bindings", fn.Name(), what))
+				}
+			}
+		})
+		if judged > 0 && !bad {
+			r.ok("C14-NSMAP", fn.Name()+":tree", w.pos(fn.Pos()), "every syntax tree used comes from a parse that received this call's prefix table")
+		}
+	}
 }
 
 // ---------- T-ERRFLOW ----------
